@@ -9,7 +9,7 @@
 #include <pthread.h>
 #include <sys/mman.h>
 
-#define MAXOBJ 40000
+#define MAXOBJ 260000
 #define CANARY 0xC0FFEE1234ABCDEFULL
 #define DEADCAN 0xDEADDEADDEADDEADULL
 
@@ -20,9 +20,11 @@ static const char* kind_names[] = { "node", "nodea", "ref", "box", "arr", "lst",
 struct Node { int64_t id; uint64_t canary; var out[4]; };
 
 struct Led {
-  var ptr; int kind, cls; int dtor; int released; bool used; bool explicit_del; bool unregistered;
+  var ptr; int kind, cls; int dtor; int released; bool used; bool explicit_del; bool unregistered; long seq;
 };
+static long alloc_seq = 0;
 static struct Led led[MAXOBJ];
+static int led_hi = 0;
 static int64_t finlog[MAXOBJ * 2]; static int nfin = 0, fin_reported = 0;
 static char errmsg[512] = "";
 static void err(const char* fmt, int64_t a) { if (not errmsg[0]) { snprintf(errmsg, sizeof errmsg, fmt, (long long)a); } }
@@ -105,7 +107,7 @@ static void NodeA_Dealloc(var self) {
   int64_t c = ((char*)self - sizeof(struct Header) - arena) / CELL;
   struct Node* n = self;
   /* id was overwritten? the ledger entry is found by address */
-  for (int i = 0; i < MAXOBJ; i++) {
+  for (int i = 0; i <= led_hi; i++) {
     if (led[i].used and led[i].ptr is self and led[i].kind is K_NODEA) {
       led[i].released++;
       if (led[i].released > 1) { err("arena object released twice id=%lld", i); }
@@ -133,15 +135,19 @@ static int hnd(const char* s) { int h = atoi(s); if (h < 0 or h >= MAXOBJ) { har
 static var P(int h) { if (not led[h].used) { harness_bug("unused handle"); } return led[h].ptr; }
 
 static int find_by_ptr(var p) {
-  for (int i = 0; i < MAXOBJ; i++) { if (led[i].used and led[i].ptr is p and not (led[i].dtor > 0 and led[i].kind <= K_NODEA)) { return i; } }
-  for (int i = 0; i < MAXOBJ; i++) { if (led[i].used and led[i].ptr is p) { return i; } }
-  return -1;
+  /* addresses are reused after a free: the most recently allocated object at this address is the one meant */
+  int best = -1;
+  for (int i = 0; i <= led_hi; i++) {
+    if (led[i].used and led[i].ptr is p and (best < 0 or led[i].seq > led[best].seq)) { best = i; }
+  }
+  return best;
 }
 
 static var mk(int h, int kind, int cls, var a0, var a1) {
   var type = NULL; var args = NULL;
   /* all temporaries at function scope: $() objects die with their enclosing block */
-  var t_id = tuple($I(h)); var t_a0 = tuple(a0); var t_ref = tuple(Ref); var t_intref = tuple(Int, Ref);
+  /* new(Ref|Box, x) dereferences x when x is itself a pointer object; wrap it so the new object points at x */
+  var t_id = tuple($I(h)); var t_a0 = tuple($R(a0)); var t_ref = tuple(Ref); var t_intref = tuple(Int, Ref);
   var t_refref = tuple(Ref, Ref); var t_none = tuple(); var t_box = tuple(Box);
   switch (kind) {
     case K_NODE: type = Node; args = t_id; break;
@@ -158,7 +164,8 @@ static var mk(int h, int kind, int cls, var a0, var a1) {
   }
   var r = cls is C_MANAGED ? new_with(type, args) : cls is C_ROOT ? new_root_with(type, args) : new_raw_with(type, args);
   led[h].used = true; led[h].ptr = r; led[h].kind = kind; led[h].cls = cls; led[h].dtor = 0; led[h].released = 0;
-  led[h].explicit_del = false;
+  led[h].explicit_del = false; led[h].seq = ++alloc_seq;
+  if (h > led_hi) { led_hi = h; }
   return r;
 }
 
@@ -199,7 +206,7 @@ static void registry_check(void) {
   if (not bad and ns > 0 and occ >= ns) { bad = "no-empty-slot"; }
   /* every live managed/root ledger object must be a member, every other one must not */
   long live = 0;
-  for (int i = 0; i < MAXOBJ and not bad; i++) {
+  for (int i = 0; i <= led_hi and not bad; i++) {
     if (not led[i].used) { continue; }
     bool should = led[i].cls isnt C_RAW and not led[i].explicit_del and not led[i].unregistered
       and not (led[i].kind <= K_NODEA and led[i].dtor > 0);
@@ -317,7 +324,8 @@ static void do_op(char** w, int n) {
     var r = copy(P(src));
     struct Node* nd = r; nd->id = h; nd->canary = CANARY ^ (uint64_t)h;
     led[h].used = true; led[h].ptr = r; led[h].kind = led[src].kind; led[h].cls = C_MANAGED; led[h].dtor = 0; led[h].released = 0;
-    led[h].explicit_del = false; led[h].unregistered = not running_now;
+    led[h].explicit_del = false; led[h].unregistered = not running_now; led[h].seq = ++alloc_seq;
+    if (h > led_hi) { led_hi = h; }
   }
   else if (OP("churn")) {                /* churn base n : n short-lived Nodes with ids base.. */
     int base = hnd(w[1]); int cnt = atoi(w[2]);
@@ -411,7 +419,7 @@ static void __attribute__((destructor)) main_mode_report(void) {
   if (not main_mode) { return; }
   /* runs after the atexit handlers, i.e. after Cello_Exit tore the main collector down */
   long bad_m = 0, bad_r = 0, n_m = 0, first_bad = -1;
-  for (int i = 0; i < MAXOBJ; i++) {
+  for (int i = 0; i <= led_hi; i++) {
     if (not led[i].used or led[i].kind > K_NODEA) { continue; }
     int want = 1;
     if (led[i].cls isnt C_MANAGED or led[i].unregistered) { want = led[i].explicit_del ? 1 : 0; }
@@ -454,7 +462,7 @@ int main(int argc, char** argv) {
       continue;
     }
     /* run the case */
-    memset(led, 0, sizeof led); nfin = 0; fin_reported = 0; errmsg[0] = 0;
+    memset(led, 0, sizeof(struct Led) * (size_t)(led_hi + 1)); led_hi = 0; nfin = 0; fin_reported = 0; errmsg[0] = 0;
     memset(cellused, 0, sizeof cellused);
     memset(bset, 0, sizeof bset); outstanding = 0;
     out = open_memstream(&outbuf, &outlen);
@@ -469,7 +477,7 @@ int main(int argc, char** argv) {
     fputs(outbuf, stdout);
     free(outbuf); outbuf = NULL;
     long bad_m = 0, bad_r = 0, n_m = 0, first_bad = -1;
-    for (int i = 0; i < MAXOBJ; i++) {
+    for (int i = 0; i <= led_hi; i++) {
       if (not led[i].used or led[i].kind > K_NODEA) { continue; }
       if (led[i].cls is C_MANAGED and not led[i].unregistered) { n_m++; if (led[i].dtor isnt 1) { bad_m++; if (first_bad < 0) { first_bad = i; } } }
       else if (led[i].cls is C_MANAGED) { int want = led[i].explicit_del ? 1 : 0; if (led[i].dtor isnt want) { bad_m++; if (first_bad < 0) { first_bad = i; } } }
